@@ -69,7 +69,7 @@ def check(prop, tier, seed, replay=None):
                        'member types (18 identities incl. mdarray) and 27 noexcept facts per instantiation; non-trivial = every probe except rank-0 ones')
     mlines = [(k, m) for k, (_, _, m) in enumerate(probes) if m]
     mout = dict(zip([k for k, _ in mlines], C.driver([m for _, m in mlines])))
-    configs = ['gcc20-O2-ndebug-emul'] + (['clang20-O0-assert', 'gcc23-O0-assert', 'gcc17-O2-assert'] if thorough else [])
+    configs = ['gcc20-O2-ndebug-emul', 'gcc17-O2-assert'] + (['clang20-O0-assert', 'gcc23-O0-assert', 'clang17-O0-ndebug-emul'] if thorough else [])
     rep.notes['configs'] = configs; rep.notes['probes'] = len(probes)
     for cfg in configs:
         use = probes if '17' not in cfg.split('-')[0] else [p for p in probes if 'std::span' not in p[0]]
